@@ -60,17 +60,19 @@ theorem inv_step {L : Node → List RAd} {s : Net} {op : Op} (hI : Inv L s)
     | old h => exact hI.flight f h
     | wdr hop ha hcidr hd hadv =>
       intro hw; rw [hadv] at hw; simp [withdrawAdv] at hw
-    | ann hop ha hd hadv =>
+    | ann hint hop ha hd hadv =>
       intro _
-      rw [hadv]
-      refine ⟨by simp [announceAdv], ?_⟩
+      have h := mem_announceAdvs hadv
+      refine ⟨by rw [h.origin, h.path]; exact List.mem_cons_self, ?_⟩
       intro r hr
-      simp only [announceAdv, List.mem_append, List.mem_singleton, tick_nodes] at hr
-      rcases hr with hr | hr
-      · refine ⟨r.metric, Or.inr ?_, by simp [announceAdv, inc16]⟩
-        rw [← hI.locals]; exact hr
-      · subst hr
-        exact ⟨0, Or.inl ⟨rfl, rfl, rfl⟩, by simp [announceAdv, inc16]⟩
+      have hr' := h.routes r hr
+      simp only [announcedRoutes, List.mem_append, List.mem_singleton, tick_nodes] at hr'
+      rw [h.origin, h.path]
+      rcases hr' with hr' | hr'
+      · refine ⟨r.metric, Or.inr ?_, by simp [inc16]⟩
+        rw [← hI.locals]; exact hr'
+      · subst hr'
+        exact ⟨0, Or.inl ⟨rfl, rfl, rfl⟩, by simp [inc16]⟩
     | fwd a m hm hl ha hb hd hne hns hself hseen hsb hlim hadv =>
       intro hw
       have hw' : m.wd = false := by rw [hadv, fwdAdv_wd] at hw; exact hw
@@ -102,23 +104,21 @@ theorem inv_step {L : Node → List RAd} {s : Net} {op : Op} (hI : Inv L s)
         exact ⟨b, hb1, hb2⟩
 
 /-- Advertisements that carry only the replayer's own local routes are coherent. -/
-theorem benign_advOK {L : Node → List RAd} {s : Net} {a b : Node} {ord : List Node} {m : Adv}
+theorem benign_advOK {L : Node → List RAd} {s : Net} {a b : Node} {ord : List RFrame} {m : Adv}
     (hI : Inv L s) (hb : benignOp s (.replay a b ord) = true)
     (hm : m ∈ replayAdvs a b (s.nodes a) ord) : AdvOK L m := by
   obtain ⟨ho, hp⟩ := benign_replay hb hm
   refine ⟨by rw [ho, hp]; exact List.mem_cons_self, ?_⟩
   intro r hr
-  obtain ⟨o, sq, _, _, rfl⟩ := mem_replayAdvs hm
-  have ho' : o = a := ho
-  subst ho'
-  obtain ⟨e, he, heo, _, rfl⟩ := replayGroup_routes hr
-  obtain ⟨h1, h2⟩ := hI.entries o e he
+  obtain ⟨e, he, heo, _, rfl⟩ := (mem_replayAdvs hm).routes r hr
+  rw [ho] at heo
+  obtain ⟨h1, h2⟩ := hI.entries a e he
   have hpe : e.path = [] := by
     apply Classical.byContradiction
     intro hne
     exact (h2 hne).1 heo
   obtain ⟨_, _, _, hmem⟩ := h1 hpe
-  refine ⟨e.metric, Or.inr hmem, ?_⟩
+  refine ⟨e.metric, Or.inr (by rw [ho]; exact hmem), ?_⟩
   rw [hp]
   simp [toRAd, inc16]
 
@@ -174,9 +174,9 @@ def witnessLocals : Node → List RAd := fun x => if x = 0 then [⟨0, 1, 0⟩] 
 
 def witnessOps : List Op := [
   .connect 0 1, .connect 1 4, .connect 0 3, .connect 3 2, .connect 2 4,
-  .announce 0, .deliver 0 1 0, .deliver 1 4 0,
-  .announce 0, .deliver 0 3 1, .deliver 3 2 0, .deliver 2 4 0,
-  .connect 4 5, .replay 4 5 [0], .deliver 4 5 0]
+  .announce 0 [], .deliver 0 1 0, .deliver 1 4 0,
+  .announce 0 [], .deliver 0 3 1, .deliver 3 2 0, .deliver 2 4 0,
+  .connect 4 5, .replay 4 5 [], .deliver 4 5 0]
 
 def witnessEntry : Entry :=
   { kind := 3, key := 0, origin := 0, nextHop := 4, metric := 3, path := [4, 2, 3, 0], seq := 1, lu := 15 }
@@ -198,8 +198,8 @@ example : benignRun (init 6 0 witnessLocals) witnessOps = false := by decide
     an announcement flooded hop by hop) is a benign history, and agent 3 ends up with the CIDR route
     of agent 0 at metric 5 + 3 over the 3-hop path 2-1-0. -/
 def chainOps : List Op := [
-  .connect 0 1, .replay 0 1 [0], .replay 1 0 [], .connect 1 2, .connect 2 3,
-  .announce 0, .deliver 0 1 1, .deliver 1 2 0, .deliver 2 3 0]
+  .connect 0 1, .replay 0 1 [], .replay 1 0 [], .connect 1 2, .connect 2 3,
+  .announce 0 [], .deliver 0 1 1, .deliver 1 2 0, .deliver 2 3 0]
 
 example : benignRun (init 4 0 (fun x => if x = 0 then [⟨0, 1, 5⟩] else [])) chainOps = true := by decide
 
